@@ -282,12 +282,13 @@ inductive Src where
   | from | to | out
 deriving DecidableEq, Repr
 
+/-- fields are numbered (the generated file carries the name table) -/
 inductive Acc where
-  | rd (s : Src) (f : String)
-  | wr (f : String)
+  | rd (s : Src) (f : Nat)
+  | wr (f : Nat)
 deriving DecidableEq, Repr
 
-def safeAux (written : List String) : List Acc → Bool
+def safeAux (written : List Nat) : List Acc → Bool
   | [] => true
   | .wr f :: rest => safeAux (f :: written) rest
   | .rd .out _ :: rest => safeAux written rest
@@ -296,45 +297,47 @@ def safeAux (written : List String) : List Acc → Bool
 /-- no input field is read after the same-named output field was written -/
 def safe (body : List Acc) : Bool := safeAux [] body
 
-/-- memory of the three alias modes: a field store per object; `mode` tells which input object the
-output is (0 = distinct, 1 = from, 2 = to).  Values are symbolic: a write stores the list of values
-read so far (the data dependence), so two runs agree iff every write saw the same reads. -/
-structure Mem where
-  frm : String → List String
-  to : String → List String
-  out : String → List String
+/-- a symbolic value: the list of original input cells `(0 = from | 1 = to, field)` it depends on -/
+abbrev Val := List (Nat × Nat)
 
-def Mem.read (m : Mem) (mode : Nat) : Src → String → List String
+/-- memory of the three alias modes: a field store per object; `mode` tells which input object the
+output is (0 = distinct, 1 = from, 2 = to).  A write stores everything read so far (the data
+dependence), so two runs agree iff every write saw the same reads. -/
+structure Mem where
+  frm : Nat → Val
+  to : Nat → Val
+  out : Nat → Val
+
+def Mem.read (m : Mem) (mode : Nat) : Src → Nat → Val
   | .from, f => if mode = 1 then m.out f else m.frm f
   | .to, f => if mode = 2 then m.out f else m.to f
   | .out, f => m.out f
 
-def exec (mode : Nat) : Mem → List String → List Acc → Mem
+def exec (mode : Nat) : Mem → Val → List Acc → Mem
   | m, _, [] => m
   | m, seen, .rd s f :: rest => exec mode m (seen ++ m.read mode s f) rest
   | m, seen, .wr f :: rest =>
     exec mode { m with out := fun g => if g = f then seen else m.out g } seen rest
 
-/-- initial memory for a mode: inputs hold their own symbolic values; an aliased output starts as
-the input it aliases (fields `fs`), a distinct output starts empty. -/
+/-- initial memory: inputs hold their own cells; an aliased output *is* the input it aliases, a
+distinct output starts empty. -/
 def initMem (mode : Nat) : Mem :=
-  { frm := fun f => ["from." ++ f], to := fun f => ["to." ++ f],
-    out := fun f => if mode = 1 then ["from." ++ f] else if mode = 2 then ["to." ++ f] else [] }
+  { frm := fun f => [(0, f)], to := fun f => [(1, f)],
+    out := fun f => if mode = 1 then [(0, f)] else if mode = 2 then [(1, f)] else [] }
 
-/-- the written output fields after running `body` in the given alias mode -/
-def run (mode : Nat) (body : List Acc) (fields : List String) : List (List String) :=
-  let m := exec mode (initMem mode) [] body
-  fields.map m.out
-
-def writes : List Acc → List String
+def writes : List Acc → List Nat
   | [] => []
   | .wr f :: rest => f :: writes rest
   | _ :: rest => writes rest
 
+/-- the values of the written output fields after running `body` in the given alias mode -/
+def run (mode : Nat) (body : List Acc) : List Val :=
+  let m := exec mode (initMem mode) [] body
+  (writes body).map m.out
+
 /-- executable statement of the aliasing clause for one body: the three modes write the same values -/
 def modesAgree (body : List Acc) : Bool :=
-  let fs := (writes body).eraseDups
-  run 0 body fs == run 1 body fs && run 0 body fs == run 2 body fs
+  run 0 body == run 1 body && run 0 body == run 2 body
 
 end Alias
 
